@@ -4,14 +4,14 @@ Require Import Base Groups.
 Definition gp (g : gst) : str := concat (map fst (groups g)).
 Definition gh (g : gst) : list nat := concat (map snd (groups g)).
 
-Lemma route_in_reg_at g m path hs hdr : route_in g m path hs hdr = reg_at (gp g) (gh g) m path hs hdr.
+Lemma route_in_reg_at g m path hs hdr : route_in g m path hs hdr = reg_at (fl g) (gp g) (gh g) m path hs hdr.
 Proof. reflexivity. Qed.
 
-Lemma get_in_get_at g path hs hdr : get_in g path hs hdr = get_at (autohead g) (gp g) (gh g) path hs hdr.
+Lemma get_in_get_at g path hs hdr : get_in g path hs hdr = get_at (fl g) (gp g) (gh g) path hs hdr.
 Proof. reflexivity. Qed.
 
 Lemma combo_in_at path common : forall uses g added,
-  combo_in g path common added uses = combo_at (autohead g) (gp g) (gh g) path common added uses.
+  combo_in g path common added uses = combo_at (fl g) (gp g) (gh g) path common added uses.
 Proof.
   induction uses as [|[m hs|b] uses IH]; intros g added; cbn [combo_in combo_at]; [reflexivity| |].
   - destruct (existsb (str_eqb m) added); [reflexivity|]. rewrite IH. reflexivity.
@@ -19,7 +19,7 @@ Proof.
 Qed.
 
 (* what the code does to the state: only AutoHead survives a statement, the stack is restored *)
-Definition lift (g : gst) (o : option (bool * list freg)) : option (gst * list freg) :=
+Definition lift (g : gst) (o : option (flags * list freg)) : option (gst * list freg) :=
   match o with Some (ah, r) => Some (mkg ah (groups g), r) | None => None end.
 
 Lemma removelast_snoc {A} (l : list A) x : removelast (l ++ [x]) = l.
@@ -38,14 +38,14 @@ Qed.
 (* relating a run with the stack to a run with the lexical prefix *)
 Lemma seq_list_lift fuel pp ph (gs : list (str * list nat)) l :
   Forall (fun s => forall g, groups g = gs ->
-            exec_stmt fuel g s = lift g (flatten_stmt (autohead g) pp ph s)) l ->
+            exec_stmt fuel g s = lift g (flatten_stmt (fl g) pp ph s)) l ->
   forall g, groups g = gs ->
-    seq_list (exec_stmt fuel) g l = lift g (seq_list (fun ah s => flatten_stmt ah pp ph s) (autohead g) l).
+    seq_list (exec_stmt fuel) g l = lift g (seq_list (fun ah s => flatten_stmt ah pp ph s) (fl g) l).
 Proof.
   induction 1 as [|s l Hs _ IH]; intros g Hg; cbn [seq_list].
   - destruct g; reflexivity.
-  - rewrite (Hs g Hg). destruct (flatten_stmt (autohead g) pp ph s) as [[ah r]|]; cbn [lift]; [|reflexivity].
-    rewrite (IH (mkg ah (groups g))) by exact Hg. cbn [autohead groups].
+  - rewrite (Hs g Hg). destruct (flatten_stmt (fl g) pp ph s) as [[ah r]|]; cbn [lift]; [|reflexivity].
+    rewrite (IH (mkg ah (groups g))) by exact Hg. cbn [fl groups].
     destruct (seq_list _ ah l) as [[ah' r']|]; reflexivity.
 Qed.
 
@@ -61,6 +61,7 @@ Hypothesis Hany : forall p hs hdr, P (SAny p hs hdr).
 Hypothesis Hgroup : forall p hs body, Forall P body -> P (SGroup p hs body).
 Hypothesis Hcombo : forall p c u, P (SCombo p c u).
 Hypothesis Hah : forall b, P (SAutoHead b).
+Hypothesis Hwr : forall b, P (SWrapper b).
 Fixpoint stmt_ind2 (s : stmt) : P s :=
   match s with
   | SRoute m p hs hdr => Hroute m p hs hdr
@@ -72,22 +73,23 @@ Fixpoint stmt_ind2 (s : stmt) : P s :=
                            match l with [] => Forall_nil _ | x :: l' => Forall_cons x (stmt_ind2 x) (f l') end) body)
   | SCombo p c u => Hcombo p c u
   | SAutoHead b => Hah b
+  | SWrapper b => Hwr b
   end.
 End StmtInd.
 
 Theorem exec_stmt_flat : forall s fuel g, depth s <= fuel ->
-  exec_stmt fuel g s = lift g (flatten_stmt (autohead g) (gp g) (gh g) s).
+  exec_stmt fuel g s = lift g (flatten_stmt (fl g) (gp g) (gh g) s).
 Proof.
-  induction s as [m p hs hdr|p hs hdr|p ms ex hs hdr|p hs hdr|p hs body IH|p c u|b] using stmt_ind2; intros fuel g Hd;
+  induction s as [m p hs hdr|p hs hdr|p ms ex hs hdr|p hs hdr|p hs body IH|p c u|b|b] using stmt_ind2; intros fuel g Hd;
     (destruct fuel as [|f]; [cbn in Hd; lia|]); cbn [exec_stmt flatten_stmt lift].
   - destruct g; reflexivity.
   - rewrite get_in_get_at. destruct g; reflexivity.
   - destruct ms; [reflexivity|]. destruct g; reflexivity.
   - destruct g; reflexivity.
   - (* Group *)
-    set (g1 := mkg (autohead g) (groups g ++ [(p, hs)])).
+    set (g1 := mkg (fl g) (groups g ++ [(p, hs)])).
     assert (E : seq_list (exec_stmt f) g1 body =
-                lift g1 (seq_list (fun ah s => flatten_stmt ah (gp g ++ p) (gh g ++ hs) s) (autohead g1) body)).
+                lift g1 (seq_list (fun ah s => flatten_stmt ah (gp g ++ p) (gh g ++ hs) s) (fl g1) body)).
     { apply (seq_list_lift f _ _ (groups g1)); [|reflexivity].
       rewrite Forall_forall in IH. apply Forall_forall. intros s Hin g' Hg'.
       rewrite (IH s Hin f g').
@@ -95,24 +97,25 @@ Proof.
         assert (E2 : gh g' = gh g ++ hs) by (unfold gh; rewrite Hg'; subst g1; cbn [groups]; apply (concat_map_snoc snd)).
         rewrite E1, E2. reflexivity.
       - cbn [depth] in Hd. pose proof (depth_in_le s body Hin). lia. }
-    rewrite E. subst g1. cbn [autohead].
-    destruct (seq_list _ (autohead g) body) as [[ah r]|]; cbn [lift]; [|reflexivity].
-    cbn [autohead groups]. rewrite removelast_snoc. reflexivity.
+    rewrite E. subst g1. cbn [fl].
+    destruct (seq_list _ (fl g) body) as [[ah r]|]; cbn [lift]; [|reflexivity].
+    cbn [fl groups]. rewrite removelast_snoc. reflexivity.
   - rewrite combo_in_at. destruct (combo_at _ _ _ _ _ _ _) as [[ah l]|]; reflexivity.
+  - reflexivity.
   - reflexivity.
 Qed.
 
 (* the whole program: what the code registers is the flat expansion, in the same order *)
-Theorem exec_is_flatten p : exec p = flatten p.
+Theorem exec_is_flatten w0 p : exec w0 p = flatten w0 p.
 Proof.
   unfold exec, flatten, exec_list, flatten_list.
   assert (F : Forall (fun s => forall g, groups g = [] ->
-            exec_stmt (S (depth_list p)) g s = lift g (flatten_stmt (autohead g) [] [] s)) p).
+            exec_stmt (S (depth_list p)) g s = lift g (flatten_stmt (fl g) [] [] s)) p).
   { apply Forall_forall. intros s Hin g Hg. rewrite exec_stmt_flat.
     - unfold gp, gh. rewrite Hg. reflexivity.
     - pose proof (depth_in_le s p Hin). unfold depth_list. lia. }
-  rewrite (seq_list_lift (S (depth_list p)) [] [] [] p F (mkg false []) eq_refl).
-  cbn [autohead]. destruct (seq_list _ false p) as [[ah r]|]; reflexivity.
+  rewrite (seq_list_lift (S (depth_list p)) [] [] [] p F (mkg (mkf false w0) []) eq_refl).
+  cbn [fl]. destruct (seq_list _ (mkf false w0) p) as [[ah r]|]; reflexivity.
 Qed.
 
 (* leaving a group restores the enclosing scope: a statement never changes the stack *)
@@ -124,7 +127,7 @@ Qed.
 
 (* ---- Headers on the returned *Route, and handler validation/wrapping ---- *)
 Lemma mark_last_snoc hdr l r :
-  mark_last hdr (l ++ [r]) = l ++ [mkfreg (fr_method r) (fr_path r) (fr_hs r) hdr].
+  mark_last hdr (l ++ [r]) = l ++ [mkfreg (fr_method r) (fr_path r) (fr_hs r) hdr (fr_wr r)].
 Proof.
   induction l as [|x l IH]; [reflexivity|].
   destruct l as [|y l']; [reflexivity|].
@@ -141,12 +144,12 @@ Qed.
 
 Definition wrap_list (wrap : bool) (hs : list nat) : list nat := if wrap then flat_map (fun h => [0; h]) hs else hs.
 
-Lemma run_trace_reg_at wrap pp ph m path hs hdr :
-  run_trace wrap (reg_at pp ph m path hs hdr) = wrap_list wrap ph ++ wrap_list wrap hs.
-Proof. unfold run_trace, wrap_list, reg_at; cbn. destruct wrap; [apply flat_map_app|reflexivity]. Qed.
+Lemma run_trace_reg_at fs pp ph m path hs hdr :
+  run_trace (reg_at fs pp ph m path hs hdr) = wrap_list (f_wr fs) ph ++ wrap_list (f_wr fs) hs.
+Proof. unfold run_trace, wrap_list, reg_at; cbn. destruct (f_wr fs); [apply flat_map_app|reflexivity]. Qed.
 
-Lemma callable_reg_at pp ph m path hs hdr :
-  callable (reg_at pp ph m path hs hdr) = forallb (fun h => negb (Nat.eqb 0 h)) ph && forallb (fun h => negb (Nat.eqb 0 h)) hs.
+Lemma callable_reg_at fs pp ph m path hs hdr :
+  callable (reg_at fs pp ph m path hs hdr) = forallb (fun h => negb (Nat.eqb 0 h)) ph && forallb (fun h => negb (Nat.eqb 0 h)) hs.
 Proof.
   unfold callable, reg_at; cbn. rewrite existsb_app, negb_orb.
   assert (E : forall l, negb (existsb (Nat.eqb 0) l) = forallb (fun h => negb (Nat.eqb 0 h)) l).
@@ -154,5 +157,5 @@ Proof.
   rewrite !E. reflexivity.
 Qed.
 
-Lemma checked_exec_flatten p : checked (exec p) = checked (flatten p).
+Lemma checked_exec_flatten w0 p : checked (exec w0 p) = checked (flatten w0 p).
 Proof. rewrite exec_is_flatten. reflexivity. Qed.
